@@ -29,7 +29,7 @@ Definition sstep (m : nat) (s : sstate) (o : sop) : sstate :=
   | Req k v =>
       if existsb (N.eqb k) (served s)
       then {| served := served s; accepted := accepted s; up := true; value := v |} else s
-  | SetDecode | Flood _ => s      (* a busy or misbehaving peer keeps its session until it is evicted or the server stops *)
+  | SetDecode | Flood _ | Park _ | Release => s      (* a busy or misbehaving peer keeps its session until it is evicted or the server stops *)
   | Stop | DropHandle => {| served := []; accepted := accepted s; up := false; value := value s |}
   end.
 
